@@ -113,6 +113,7 @@ type vfWorld struct {
 	prov      *vfProvider
 	insts     []*vfInstance // every instance ever created in this case
 	slots     []int         // slot -> index into insts (a slot is what the script addresses)
+	peer      *TraefikOidc  // another application (client ID) of the same provider in this process
 	foreign   *TraefikOidc  // an instance of ANOTHER deployment (other key), used only to mint/decode foreign cookies
 	browsers  []*vfBrowser
 	base      time.Time
@@ -144,6 +145,8 @@ type testingTB interface {
 }
 
 type vfBrowser struct {
+	lastLoc  string            // Location of the browser's most recent response when that was a redirect
+	snap     map[string]string // cookies kept aside by tamper "snap"
 	jar      map[string]string
 	lastAuth map[string]string // parameters of the most recent authorization redirect
 	prevAuth map[string]string // the one before (a stale initiation)
@@ -261,6 +264,23 @@ func (w *vfWorld) newInstance(key string) (*TraefikOidc, *vfDownstream) {
 		w.tb.Fatalf("instance did not become ready")
 	}
 	return t, down
+}
+
+// peerInstance: ANOTHER application of the same provider (its own client ID and session key), configured in the same process
+func (w *vfWorld) peerInstance() *TraefikOidc {
+	if w.peer == nil {
+		c := *w.config(w.keyB())
+		c.ClientID = "some-other-client"
+		h, err := New(context.Background(), &vfDownstream{}, &c, "vf-peer")
+		if err != nil {
+			w.tb.Fatalf("New (peer): %v", err)
+		}
+		w.peer = h.(*TraefikOidc)
+		if !vfWaitReady(w.peer, 10*time.Second) {
+			w.tb.Fatalf("peer instance did not become ready")
+		}
+	}
+	return w.peer
 }
 
 // addInstance creates a new instance in the given slot (replacing the one there)
@@ -995,6 +1015,10 @@ func (w *vfWorld) do(rq vfReq) *vfObserved {
 		} else {
 			b.jar[c.Name] = c.Value
 		}
+	}
+	b.lastLoc = ""
+	if obs.Status >= 300 && obs.Status < 400 {
+		b.lastLoc = obs.Location
 	}
 	// remember the authorization redirect
 	if obs.Status == 302 && strings.HasPrefix(obs.Location, w.prov.issuer+"/authorize") {
